@@ -118,8 +118,7 @@ class Simulator:
                 break
 
             if event.time <= end_time:
-                self.time = event.time
-                event.execute()
+                self._execute_event(event)
             else:
                 self.time = end_time
                 self._schedule_event(event)  # reschedule event
@@ -142,8 +141,12 @@ class Simulator:
         except IndexError:  # event list is empty
             return
         else:
-            self.time = event.time
-            event.execute()
+            self._execute_event(event)
+
+    def _execute_event(self, event: SimulationEvent) -> None:
+        """Advance the clock to the time of the event and execute it."""
+        self.time = event.time
+        event.execute()
 
     def run_for(self, time_delta: int | float):
         """Run the simulator for the specified time delta.
@@ -361,17 +364,23 @@ class ABMSimulator(Simulator):
             # fixme: the alternative would be to wrap model.step with an annotation which
             #  handles this scheduling.
             if event.time <= end_time:
-                self.time = event.time
-                if event.fn() == self.model.step:
-                    self.schedule_event_next_tick(
-                        self.model.step, priority=Priority.HIGH
-                    )
-
-                event.execute()
+                self._execute_event(event)
             else:
                 self.time = end_time
                 self._schedule_event(event)
                 break
+
+    def _execute_event(self, event: SimulationEvent) -> None:
+        """Advance the clock to the time of the event and execute it.
+
+        When the event is model.step, the step for the next tick is scheduled first, so
+        that run_until, run_for and run_next_event all keep stepping once per tick.
+        """
+        self.time = event.time
+        if event.fn() == self.model.step:
+            self.schedule_event_next_tick(self.model.step, priority=Priority.HIGH)
+
+        event.execute()
 
 
 class DEVSimulator(Simulator):
